@@ -146,7 +146,13 @@ pub fn render<Vtx: Clone, Var: Lerp + Vary, Uni: Copy, Shd>(
             // of the original view-space depth. The interpolated reciprocal
             // is used in fragment processing for depth testing (larger values
             // are closer) and for perspective correction of the varyings.
-            let pos = vec3(x, y, 1.0).z_div(w);
+            let [x, y, z] = vec3::<_, ()>(x, y, 1.0).z_div(w).0;
+            // A vertex created by the clipper lies on a frustum plane only up
+            // to rounding, relative to the magnitude of the clipped-away end
+            // of its edge. That may be much more than an ulp of the result,
+            // and on a wide viewport more than half a pixel: keep the vertex
+            // within the viewport so that no span extends beyond it
+            let pos = vec3(x.clamp(-1.0, 1.0), y.clamp(-1.0, 1.0), z);
             Vertex {
                 // Viewport transform
                 pos: to_screen.apply(&pos).to_pt(),
